@@ -6,6 +6,7 @@ import (
 	"encoding/json"
 	"fmt"
 	"math/rand"
+	"time"
 )
 
 // Random request programs over a small adversarial universe.  One generator serves the
@@ -992,4 +993,56 @@ func longFieldProgram() []Call {
 		Call{Req: Req{Kind: "drop", Table: t, HasPfx: true, Prefix: keys[1]}, Now: 1000}, rd,
 		Call{Req: Req{Kind: "sample", Table: t}, Now: 1000})
 	return prog
+}
+
+// c16Quiescence: see the block "the background loop's pass" in genPrograms
+func c16Quiescence(en Engine) Case {
+	t := tname(parentA, "t1")
+	rd := Call{Req: Req{Kind: "read", Table: t}, Now: 9000}
+	pc := Case{Store: en.name, Tag: "quiescence"}
+	for _, sc := range []struct {
+		name              string
+		readAgo, writeAgo time.Duration
+		collects          bool
+	}{
+		{"read and written 10 minutes ago", 10 * time.Minute, 10 * time.Minute, true},
+		{"written 10 minutes ago, read 1 minute ago", time.Minute, 10 * time.Minute, false},
+		{"read 10 minutes ago, written 1 minute ago", 10 * time.Minute, time.Minute, false},
+		{"read and written 4 minutes 50 seconds ago", 290 * time.Second, 290 * time.Second, false},
+		{"not written since the last pass", 10 * time.Minute, -1, false},
+	} {
+		st, cleanup := en.mk()
+		e := NewEmu(st)
+		e.ExecFast(Call{Req: Req{Kind: "create", Parent: parentA, Tid: "t1", Fams: []FamDef{{Name: "cf", Rule: &GcRule{Kind: "maxversions", N: 1}}, {Name: "cf2"}}}, Now: 1000})
+		for i, ts := range []int64{1000, 2000, 3000} {
+			e.ExecFast(Call{Req: Req{Kind: "mutate", Table: t, Key: []byte("r1"), Muts: []Mutation{{Kind: "set", Fam: "cf", Q: []byte("q"), Ts: ts, V: []byte{byte('a' + i)}}, {Kind: "set", Fam: "cf2", Q: []byte("q"), Ts: ts, V: []byte{byte('a' + i)}}}}, Now: 5000})
+		}
+		var notes []string
+		if !e.v.BackdateUse(t, sc.readAgo, sc.writeAgo) || !e.v.RunGCUnforced(t) {
+			notes = append(notes, "quiescence: the table is unknown to the hooks")
+		}
+		o := e.ExecFast(rd)
+		cells := 0
+		for _, r := range o.Rows {
+			for _, f := range r.Fams {
+				if f.Name == "cf" {
+					for _, c := range f.Cols {
+						cells += len(c.Cells)
+					}
+				}
+			}
+		}
+		if sc.collects && cells != 1 {
+			notes = append(notes, fmt.Sprintf("quiescence (%s): the unforced pass left %d cells in a max-versions-1 column holding 3", sc.name, cells))
+		}
+		if !sc.collects && cells != 3 {
+			notes = append(notes, fmt.Sprintf("quiescence (%s): the unforced pass ran on a table in use (or clean): %d of 3 cells left", sc.name, cells))
+		}
+		o.Notes = append(o.Notes, notes...)
+		pc.Prog = append(pc.Prog, rd)
+		pc.Obs = append(pc.Obs, o)
+		closeEmu(e)
+		cleanup()
+	}
+	return pc
 }
